@@ -37,6 +37,26 @@ type Config struct {
 	Commands int                             // client commands preloaded at every replica
 	Crashed  map[hotstuff.ID]bool            // replicas that never receive anything
 	Drops    bool                            // message loss is an explicit event (a deviation from the FIFO schedule)
+	// Scenario is a Twins-style per-view schedule: the leader of the view and a two-block partition
+	// of the node slots (bit i of Mask set = slot i is in block A). While its sender is in one of
+	// these views a message only reaches receivers in the sender's block; later views are healed
+	// and led round-robin.
+	Scenario []ScView
+}
+
+// ScView is one view of a scenario.
+type ScView struct {
+	Leader hotstuff.ID
+	Mask   uint32
+}
+
+// connected reports whether a message from slot a (currently in view v) may reach slot b.
+func (c *Config) connected(v hotstuff.View, a, b int) bool {
+	if v < 1 || int(v) > len(c.Scenario) {
+		return true
+	}
+	m := c.Scenario[v-1].Mask
+	return (m>>uint(a))&1 == (m>>uint(b))&1
 }
 
 // Msg is one in-flight message.
@@ -94,9 +114,13 @@ func (s *simSender) id() hotstuff.ID { return s.w.Nodes[s.slot].ID }
 
 func (s *simSender) post(to hotstuff.ID, payload any, view hotstuff.View) {
 	w := s.w
+	sv := w.Nodes[s.slot].VS.View()
 	for _, slot := range w.ByID[to] {
 		if slot == s.slot {
 			continue
+		}
+		if !w.Cfg.connected(sv, s.slot, slot) {
+			continue // lost in the partition of the sender's current view
 		}
 		w.addInflight(Msg{From: s.slot, To: slot, Payload: payload, View: view})
 	}
@@ -135,8 +159,9 @@ func (s *simSender) Propose(p *hotstuff.ProposeMsg) {
 	s.broadcast(*p, p.Block.View())
 }
 func (s *simSender) RequestBlock(_ context.Context, hash hotstuff.Hash) (*hotstuff.Block, bool) {
+	sv := s.w.Nodes[s.slot].VS.View()
 	for _, n := range s.w.Nodes {
-		if n.Slot == s.slot {
+		if n.Slot == s.slot || !s.w.Cfg.connected(sv, s.slot, n.Slot) {
 			continue
 		}
 		if b, ok := n.Chain.LocalGet(hash); ok {
@@ -227,6 +252,15 @@ func New(cfg Config) *World {
 	w.Blocks[hotstuff.GetGenesis().Hash()] = hotstuff.GetGenesis()
 	w.Mon = newMonitors(w)
 	leader := cfg.Leader
+	if leader == nil && len(cfg.Scenario) > 0 {
+		sc, n := cfg.Scenario, hotstuff.View(cfg.N)
+		leader = func(v hotstuff.View) hotstuff.ID {
+			if v >= 1 && int(v) <= len(sc) {
+				return sc[v-1].Leader
+			}
+			return hotstuff.ID(v%n + 1)
+		}
+	}
 	mk := func(id hotstuff.ID, honest bool, client uint32) {
 		slot := len(w.Nodes)
 		snd := &simSender{w: w, slot: slot}
